@@ -4,7 +4,7 @@
   second formula is the first with its variable renamed, whose satisfaction set is the first one's set read at the
   other variable slot — which is what `renameBack` computes.
 -/
-import HctlProofs.Lemmas.CacheSound
+import HctlProofs.Lemmas.CacheDefs
 import HctlProofs.Lemmas.VarRename
 import HctlProofs.Props.C06
 namespace Hctl
